@@ -242,7 +242,8 @@ var repairs = []repair{
 		}
 	}},
 	{name: "where-in-name", ast: func(a *hSchema) {
-		a.renameAll(func(_, n string) string { return replaceFold(n, "where", "wh_re") })
+		// only the upper-case letters matter to strings.Index(stmt, "WHERE")
+		a.renameAll(func(_, n string) string { return strings.ReplaceAll(n, "WHERE", "WH_RE") })
 	}},
 	{name: "check-in-name", ast: func(a *hSchema) {
 		a.renameAll(func(_, n string) string { return replaceFold(n, "check", "chk") })
@@ -512,6 +513,9 @@ func (c *loopCase) attribute(symptoms []string) map[string]string {
 			// gone = not observed AND the run got far enough to observe it
 			if !now[s] && !blocked(s, now) {
 				cause[s] = repairs[k].name
+				if !c.causeApplies(repairs[k].name) {
+					cause[s] = "unexplained"
+				}
 				delete(left, s)
 			}
 		}
@@ -520,6 +524,51 @@ func (c *loopCase) attribute(symptoms []string) map[string]string {
 		cause[s] = "unexplained"
 	}
 	return cause
+}
+
+// causeApplies: a cause names an input feature; it can only explain a symptom of a case that has the
+// feature.  (Without this a repair that happens to make a symptom disappear - e.g. renaming a column
+// that also occurs in a predicate - would hand a new defect to a known finding.)
+func (c *loopCase) causeApplies(cause string) bool {
+	switch cause {
+	case "where-in-name":
+		// upper-case WHERE before the keyword of some partial index: in the index name, the table
+		// name or the key parts
+		for i := range c.ast.Tables {
+			t := &c.ast.Tables[i]
+			for j := range t.Indexes {
+				ix := &t.Indexes[j]
+				if ix.Where == "" {
+					continue
+				}
+				head := ix.Name + "\x00" + t.Name
+				for _, p := range ix.Parts {
+					head += "\x00" + p.Col + "\x00" + p.Expr
+				}
+				if strings.Contains(head, "WHERE") {
+					return true
+				}
+			}
+		}
+		return false
+	case "lowercase-where":
+		if c.how != "hand" {
+			return false
+		}
+		st := newStyle(rng.New(c.styleSeed), c.ast.clone())
+		if st.kw == 0 {
+			return false
+		}
+		for i := range c.ast.Tables {
+			for j := range c.ast.Tables[i].Indexes {
+				if c.ast.Tables[i].Indexes[j].Where != "" {
+					return true
+				}
+			}
+		}
+		return false
+	}
+	return true
 }
 
 // blocked: a symptom cannot be observed when an earlier step of the loop failed.
@@ -556,7 +605,7 @@ func (c *loopCase) repaired(k int) *loopCase {
 			repairs[i].sty(st)
 		}
 	}
-	rc := &loopCase{id: c.id, how: c.how, ast: a, styleSeed: c.styleSeed, noAttr: true}
+	rc := &loopCase{id: c.id, how: c.how, ast: a, styleSeed: c.styleSeed, noAttr: true, history: c.history}
 	rc.script = strings.Join(st.script(a), ";\n") + ";"
 	return rc
 }
